@@ -7,6 +7,15 @@ TRUSTED_COMMON = [
 ]
 
 PROPS = {
+    "C16": {
+        "title": "Store fidelity",
+        "design_ref": "DESIGN.md §3 C16",
+        "technique": "Lean 4 refinement proofs for RollingIndex and LRU (partial views of a plain map, bounded) + differential correspondence (exhaustive-small and random op sequences) + store-vs-reference oracle with Badger close/reopen",
+        "level_text": "Proof (Lean 4) for the container models: after any sequence of Set attempts a RollingIndex of any size returns at index j exactly the latest item written at j or a TooLate/KeyNotFound answer consistent with its window (rolling_index_window), never more than size items (size>=2); after any sequence of Add/Get/Remove an LRU of any capacity returns only the latest value written for a key, holds no key twice and at most size entries. PARTIAL: the store itself (caches in front of the durable Badger map, key construction, close/reopen, listings) is not a theorem: it is decided by running the real InmemStore/BadgerStore under real gossip histories with caches from tiny to default and reopen at random points against a reference kept by the harness (events, blocks, rounds, frames, peer sets, roots, participant and topological listings; cache level and database level).",
+        "level_note": "Trusted: Lean kernel; container models tied to src/common by correspondence (all sequences of length<=4 (5 thorough) over the interesting operations for sizes 1..4 + random); Badger durability and the JSON encoders are used as they are.",
+        "trusted_base": ["container models Babble.Containers tied to common.RollingIndex / common.LRU by correspondence", "Badger (committed transactions are durable), encoding/json and ugorji codec as used by the store"],
+        "assumptions": ["first index written to a RollingIndex is non-negative (participant indexes start at 0 after the C07 repair; the consensus cache counts from 0)"],
+    },
     "C07": {
         "title": "Event admission",
         "design_ref": "DESIGN.md §3 C07",
